@@ -25,6 +25,12 @@ Theorem C01_quorum_intersection_partial : forall (vs a b : list N),
 Proof. exact quorum_intersection. Qed.
 Print Assumptions C01_quorum_intersection_partial.
 
+(* (1b) raft.quorum() is a strict majority for EVERY group size, even ones included: two disjoint sets of quorum size
+        do not fit into the voter list (a 2:2 split of four voters elects nobody) *)
+Theorem C01_quorum_is_strict_majority : forall n, n < 2 * quorum n.
+Proof. exact quorum_gt_half. Qed.
+Print Assumptions C01_quorum_is_strict_majority.
+
 (* (2) the same across a single-step membership change (one voter added or removed): a majority of
        the old list and a majority of the new list intersect *)
 Theorem C01_quorum_intersection_step : forall (vs vs' a b : list N) (x : N),
